@@ -2002,10 +2002,35 @@ func getMethod(n *node) {
 	l := n.level
 	next := getExec(n.tnext)
 
+	// A method value binds its receiver when it is evaluated: a copy of the
+	// value for a value receiver, the address of the variable for a pointer receiver.
+	var rcvr func(*frame) reflect.Value
+	ptrRecv := false
+	if m, ok := n.val.(*node); ok && n.recv != nil && n.recv.node != nil && m.typ != nil && m.typ.recv != nil {
+		rcvr = genValueRecv(n)
+		ptrRecv = m.typ.recv.cat == ptrT
+	}
+
 	n.exec = func(f *frame) bltn {
 		nod := *(n.val.(*node))
 		nod.val = &nod
 		nod.recv = n.recv
+		if rcvr != nil {
+			if v := rcvr(f); v.IsValid() && v.Kind() != reflect.Interface {
+				switch {
+				case ptrRecv && v.Kind() != reflect.Ptr && v.CanAddr():
+					nod.recv = &receiver{val: v.Addr()}
+				case !ptrRecv && v.Kind() != reflect.Ptr:
+					c := reflect.New(v.Type()).Elem()
+					c.Set(v)
+					nod.recv = &receiver{val: c}
+				case !ptrRecv && v.Kind() == reflect.Ptr && !v.IsNil():
+					c := reflect.New(v.Type().Elem()).Elem()
+					c.Set(v.Elem())
+					nod.recv = &receiver{val: c}
+				}
+			}
+		}
 		getFrame(f, l).data[i] = genFuncValue(&nod)(f)
 		return next
 	}
